@@ -172,6 +172,47 @@ def run(ctx):
     from ..pycfg import feasible
     # a wrapper that REPORTS success (its call is the test of an `if`): the event exists only on the true edge; on the false edge the head's flow has failed alone
     inner_heads = [cfg.node_of(f.iter) for f in ast.walk(gl) if isinstance(f, ast.For) and f is not gl and any(f is s_ for s_ in gbody)]
+
+    def _created_on_edge(test, edge):
+        import itertools
+        ats = []
+
+        def collect(e):
+            if isinstance(e, ast.BoolOp):
+                for v in e.values:
+                    collect(v)
+            elif isinstance(e, ast.UnaryOp) and isinstance(e.op, ast.Not):
+                collect(e.operand)
+            else:
+                ats.append(e)
+        collect(test)
+        if len(ats) > 10:
+            return {True, False}
+        is_e = [isinstance(a, ast.Call) and isinstance(a.func, ast.Name) and a.func.id in EMITS for a in ats]
+        out = set()
+        for vals in itertools.product((False, True), repeat=len(ats)):
+            env = {id(a): v for a, v in zip(ats, vals)}
+            made = [False]
+
+            def ev(e):
+                if isinstance(e, ast.BoolOp):
+                    if isinstance(e.op, ast.And):
+                        for v in e.values:
+                            if not ev(v):
+                                return False
+                        return True
+                    for v in e.values:
+                        if ev(v):
+                            return True
+                    return False
+                if isinstance(e, ast.UnaryOp) and isinstance(e.op, ast.Not):
+                    return not ev(e.operand)
+                if is_e[[id(a) for a in ats].index(id(e))] and env[id(e)]:
+                    made[0] = True
+                return env[id(e)]
+            if ev(test) is edge:
+                out.add(made[0])
+        return out
     counts = set()
     nfeasible = 0
     for p in paths:
@@ -185,15 +226,20 @@ def run(ctx):
                 continue
             if n.kind == "test" and isinstance(n.ast, ast.expr) and i_ + 1 < len(p):
                 labs = [lab for m, lab in n.succ if m is p[i_ + 1]]
-                conj = n.ast.values if isinstance(n.ast, ast.BoolOp) and isinstance(n.ast.op, ast.And) else [n.ast]
-                direct = [c_ for c_ in conj if isinstance(c_, ast.Call) and isinstance(c_.func, ast.Name) and c_.func.id in EMITS]
-                if direct and labs == [False]:
-                    # the wrapper reported failure (that flow failed alone), or an earlier conjunct kept it from being tried
-                    failed += 1
-                    continue
-                if direct and labs == [True]:
-                    k += 1
-                    continue
+                if len(labs) == 1 and labs[0] in (True, False):
+                    # what does the edge taken say about the wrapper's result?  All truth assignments of the test's atoms are evaluated with short-circuit semantics
+                    # (whatever way the test is written: `a and w()`, `not a or not w()`, ...): the event exists iff the wrapper was evaluated and returned True.
+                    created = _created_on_edge(n.ast, labs[0])
+                    if created == {True}:
+                        k += 1
+                        continue
+                    if created == {False}:
+                        failed += 1      # the wrapper reported failure (that flow failed alone) or was not tried
+                        continue
+                    if created == {True, False}:
+                        k += 1
+                        cond = True
+                        continue
             k += 1
             cond = cond or _conditional_emit(n)
         if k == 0 and failed and not any(n in inner_heads for n in p):
